@@ -21,12 +21,12 @@ Python behaviours reproduced on purpose:
   (its constructor does not even accept the flag);
 * first fit: strategies in list order (outer loop), pools in dict order (inner loop),
   `WorkerPool.can_accomodate_strategy` = any worker can;
-* EDF / FIFO then call `worker_pool.place_task(task, execution_strategy=strategy)`
-  (first worker of the pool that can accommodate *that* strategy);
-  **LSF calls `worker_pool.place_task(task)` without the strategy it has just tested**:
-  the pool then scans workers × strategies and charges the first fitting strategy of the
-  first worker that fits any — which can be a different strategy (finding D13).  The
-  reported placement always names the tested strategy;
+* all three then call `worker_pool.place_task(task, execution_strategy=strategy)`
+  (first worker of the pool that can accommodate *that* strategy).  Until /repo commit 366b4de
+  LSF called `worker_pool.place_task(task)` without the strategy it had just tested (the pool
+  then charged the first fitting strategy of the first worker that fits any — finding D13,
+  fixed); `Policy.passesStrategy` is the switch that modelled it.  The reported placement
+  always names the tested strategy;
 * the return value of `place_task` is ignored; an exception it raises aborts `schedule()`;
 * a task that fits nowhere is answered with `create_task_placement(task)` (no pool, no
   strategy, no time); placements are returned in processing order;
@@ -44,11 +44,11 @@ inductive Policy
   deriving DecidableEq, Repr
 
 /-- Does the policy hand the strategy it has just tested to `WorkerPool.place_task`?
-**This is the single definition to change when `LSFScheduler` is repaired** (make it `true`
-for `.lsf`): `Props/C13.lean` / `Props/C10_Greedy.lean` then hold for LSF without the
-extra hypothesis, and the two `lsf_…_counterexample` theorems stop compiling (delete them). -/
+All three do since /repo commit 366b4de ("fix: LSFScheduler charges the execution strategy it
+reports"); before it this was `false` for `.lsf` (finding D13).  Kept as the single switch:
+should a policy stop passing the strategy, set it to `false` here and the unconditional
+theorems of `Props/C13.lean` / `Props/C10_Greedy.lean` stop compiling for it. -/
 def Policy.passesStrategy : Policy → Bool
-  | .lsf => false
   | _ => true
 
 /-- Does the policy's loop contain the `enforce_deadlines` admission test? -/
